@@ -4,7 +4,7 @@ from pathlib import Path
 LIBS = ["libavoid"]
 HARNESS = "harness/c05.cpp"
 DRIVER_MODE = "c05"
-LEAN_MODULES = ["AdaptaVerif.Props.C05", "AdaptaVerif.Props.C05Tie", "AdaptaVerif.Props.C05AStar", "AdaptaVerif.Props.C05OrthVis", "AdaptaVerif.Props.C05OrthVisRoute"]
+LEAN_MODULES = ["AdaptaVerif.Props.C05", "AdaptaVerif.Props.C05Tie", "AdaptaVerif.Props.C05AStar", "AdaptaVerif.Props.C05OrthVis", "AdaptaVerif.Props.C05OrthVisRoute", "AdaptaVerif.Props.C05OrthVisTie"]
 LEVEL = "translation_validation"
 LEVEL_TEXT = ("Sentence 3 (estimator never overestimates) is a Lean theorem for all rational inputs about a "
               "hand model of bends()/estimatedCostSpecific() (bends_admissible, bends_tight, bends_total, "
@@ -107,7 +107,7 @@ def regenerate(ROOT, REPO):
     from pathlib import Path as _P
     sys.path.insert(0, str(_P(ROOT) / "tools" / "cpp2lean"))
     import jobs
-    return jobs.regenerate(["makepath", "astar"], _P(ROOT), _P(REPO))
+    return jobs.regenerate(["makepath", "astar", "orthvis"], _P(ROOT), _P(REPO))
 
 
 def plan(tier, seed, searching):
